@@ -144,10 +144,10 @@ func (h264dp *h264Depacketizer) depacketizeFuA(packet *Packet) (err error) {
 
 	if (fuHeader>>7)&1 == 1 { // 第一个分片包
 		h264dp.fragments = h264dp.fragments[:0]
-	}
-	if len(h264dp.fragments) != 0 &&
+	} else if len(h264dp.fragments) == 0 ||
 		h264dp.fragments[len(h264dp.fragments)-1].SequenceNumber != packet.SequenceNumber-1 {
-		// Packet loss ?
+		// Packet loss: the start fragment or a fragment in between is missing,
+		// the rest of this NAL unit cannot be used.
 		h264dp.fragments = h264dp.fragments[:0]
 		return
 	}
